@@ -128,6 +128,16 @@ def run_text(ctx):
         for _ in range(ctx.scale(5, 8)):
             inputs.append(("mutant", mutate_text(rng, d, docs)))
     inputs += eof_cases(rng, ctx.scale(150, 1500))
+    # every sequence of up to 4 atoms of the parameter / interpolation / brace syntax (`[[a]` `[[!a]` `@[b]` `@v` `]` `{` `}` `=`
+    # bare and quoted words), glued and blank-separated, bare and inside `x={ .. }`: whatever the parser accepts must be sound
+    import itertools
+    ATOMS = [b"[[a]", b"[[!a]", b"@[b]", b"@v", b"]", b"{", b"}", b"=", b"k", b'"q"', b"1"]
+    for n in range(1, ctx.scale(4, 5) + 1):
+        for combo in itertools.product(ATOMS, repeat=n):
+            for sep in (b"", b" "):
+                body = sep.join(combo)
+                inputs.append(("paramsoup", body))
+                inputs.append(("paramsoup", b"x={" + sep + body + sep + b"}"))
     for _ in range(ctx.scale(1500, 30000)):
         inputs.append(("soup", tg.gen_soup(rng, maxlen=rng.choice([5, 10, 20, 40]))))
     cases = ["tt.ptr\t%s" % hexs(d) for _, d in inputs]
